@@ -173,28 +173,54 @@ func checkC18(p *Program, r *Report) {
 			}
 			nAlways++
 			field := lastField(sc.srcExpr)
-			okAll, how := true, "the sort call dominates every return"
-			for _, ret := range returnsOf(inp) {
-				rb := ret.Block()
-				if sc.call.Block() == rb || sc.call.Block().Dominates(rb) {
-					continue
-				}
-				// a return that skips this sort: the branch conditions on the way must bound the list by one entry
-				proved := false
-				facts := lc.FactsOf(MustCondsAtBlock(inp, rb))
-				for _, b := range inp.Blocks {
-					for _, in := range b.Instrs {
-						if ln, ok := in.(*ssa.Call); ok && isBuiltin(&ln.Call, "len") && strings.HasSuffix(exprString(ln.Call.Args[0]), "."+field) {
-							if lc.Entails(facts, lc.Lin(ln).addConst(-1)) {
-								proved = true
-							}
-						}
+			okAll, how := true, "every path to a return passes the sort call or an edge on which the list is known to have fewer than two entries"
+			// edges on which len(list) ≤ 1 is known from the branch condition itself
+			var lens []*ssa.Call
+			for _, b := range inp.Blocks {
+				for _, in := range b.Instrs {
+					if ln, ok := in.(*ssa.Call); ok && isBuiltin(&ln.Call, "len") && strings.HasSuffix(exprString(ln.Call.Args[0]), "."+field) {
+						lens = append(lens, ln)
 					}
 				}
-				if !proved {
-					okAll = false
-					how = "the return at " + p.Pos(p.InstrPos(ret)) + " is reached without sorting " + field + " and nothing on that path says it has fewer than two entries"
+			}
+			small := func(from *ssa.BasicBlock, k int) bool {
+				iff, ok := lastInstr(from).(*ssa.If)
+				if !ok {
+					return false
 				}
+				f := &Facts{}
+				lc.CondFacts(iff.Cond, k == 0, f, nil)
+				for _, ln := range lens {
+					if lc.Entails(f, lc.Lin(ln).addConst(-1)) {
+						return true
+					}
+				}
+				return false
+			}
+			seen := map[*ssa.BasicBlock]bool{}
+			var walk func(b *ssa.BasicBlock)
+			var badRet *ssa.Return
+			walk = func(b *ssa.BasicBlock) {
+				if seen[b] || b == sc.call.Block() {
+					return
+				}
+				seen[b] = true
+				if ret, ok := lastInstr(b).(*ssa.Return); ok {
+					badRet = ret
+				}
+				for k, sb := range b.Succs {
+					if small(b, k) {
+						continue
+					}
+					walk(sb)
+				}
+			}
+			// the sort call's own block: instructions before the call do not matter, the call is reached whenever the
+			// block is entered
+			walk(inp.Blocks[0])
+			if badRet != nil {
+				okAll = false
+				how = "the return at " + p.Pos(p.InstrPos(badRet)) + " is reached without sorting " + field + " and without passing a test that says it has fewer than two entries"
 			}
 			r.Add("C18.always", FnName(inp), field+" is sorted on every path through InPlaceSort", sc.call.Pos(), okAll, how)
 		}
